@@ -847,7 +847,7 @@ func (c *Ctx) ord5() {
 	skip := c.acc("ORD-5", rs, "error-result-examined-before-the-routine-goes-on")
 	wire := c.wireCapable()
 	origins := func(e *pathx.Event) bool {
-		if e.Kind != pathx.KCall || e.Depth != 0 || e.Callee == nil {
+		if e.Kind != pathx.KCall || !c.inRegion(rs, e) || e.Callee == nil {
 			return false
 		}
 		if wire[e.Callee] {
@@ -873,7 +873,7 @@ func (c *Ctx) ord5() {
 			j := -1
 			for k := i + 1; k < len(p.Events); k++ {
 				n := &p.Events[k]
-				if n.Depth != 0 {
+				if !c.inRegion(rs, n) {
 					continue
 				}
 				switch n.Kind {
@@ -991,7 +991,7 @@ func (c *Ctx) errorsNotSkippedIO(rule string, fn *ssa.Function) {
 	a := c.acc(rule, fn, "I/O-error-examined-before-the-function-goes-on")
 	wire := c.wireCapable()
 	isIO := func(e *pathx.Event) bool {
-		if e.Kind != pathx.KCall || e.Deferred || e.Depth != 0 {
+		if e.Kind != pathx.KCall || e.Deferred || !c.inRegion(fn, e) {
 			return false
 		}
 		if e.Method != nil && (e.Method.Name() == "SetReadDeadline" || e.Method.Name() == "SetWriteDeadline") {
@@ -1042,7 +1042,7 @@ func (c *Ctx) errorsNotSkippedIO(rule string, fn *ssa.Function) {
 					}
 					continue
 				}
-				if n.Depth != 0 || n.Deferred {
+				if !c.inRegion(fn, n) || n.Deferred {
 					continue
 				}
 				switch n.Kind {
